@@ -161,6 +161,7 @@ func init() {
 	reg("wrapfe", WrapHidden, 1, nil, ix(0), true, 1)
 	reg("combine", WrapHidden, 0, nil, nil, true, 1)
 	reg("newfwe", WrapHidden, 2, nil, ix(0, 1), true, 1)
+	reg("newfew", WrapHidden, 2, nil, ix(0, 1), true, 1) // the %w operand is NOT the first error argument
 	// multi-cause
 	reg("join", Multi, 0, nil, nil, true, 3)
 	reg("gojoin", Multi, 0, nil, nil, false, 2)
@@ -428,6 +429,8 @@ func Build1(n *Node, m Built) error {
 		return errors.CombineErrors(kids[0], hid[0])
 	case "newfwe":
 		return errors.Newf(esc(S[0])+" %w "+esc(S[1])+" %v", kids[0], hid[0])
+	case "newfew":
+		return errors.Newf(esc(S[0])+" %v "+esc(S[1])+" %w", hid[0], kids[0])
 	// ---- multi-cause
 	case "join":
 		j := errors.Join(kids...)
